@@ -22,6 +22,7 @@ import (
 	"encoding/pem"
 	"errors"
 	"fmt"
+	"io/fs"
 	"math/rand"
 	"runtime"
 	"sort"
@@ -52,13 +53,15 @@ type c05Cert struct {
 }
 
 type c05Event struct {
-	Kind  string `json:"kind"` // scan act ext issuer job manage
+	Kind  string `json:"kind"` // scan act ext issuer job manage | revoke ocsp
 	P     int    `json:"p,omitempty"`
 	N     int    `json:"n,omitempty"`
 	Rest  []int  `json:"rest,omitempty"`
 	Fail  bool   `json:"fail,omitempty"`
 	K     int    `json:"k,omitempty"`
 	Async bool   `json:"async,omitempty"`
+	ID    int    `json:"id,omitempty"` // revoke: identity of the cached certificate
+	Ord   []int  `json:"ord,omitempty"` // ocsp: the order in which the pass took the names (observed; a replay re-observes it)
 }
 
 type c05Hist struct {
@@ -80,6 +83,7 @@ type c05Obs struct {
 	Failed []int      `json:"failed"`
 	Jobs   []int      `json:"jobs"`
 	Err    bool       `json:"err"`
+	Rev    []int      `json:"revoked"` // cache entries whose OCSP status is Revoked
 }
 
 // ---------------------------------------------------------------- goroutine identity
@@ -144,6 +148,11 @@ type c05World struct {
 	passes   map[int]*c05Pass
 	lastErr  bool
 	nowRef   time.Time
+	idue     bool
+	ocspG    map[int64]bool // goroutines running an OCSP maintenance pass
+	last     *c05Obs        // the latest observation
+	hashOf   map[int]string // cache key by certificate identity, as of the latest observation
+	ocspOrd  []int          // names in the order the running OCSP pass asked for their locks
 }
 
 var c05DueChecked, c05DueMismatch int
@@ -178,12 +187,28 @@ func (w *c05World) hook(op *doubles.Op) error {
 	inject := func() error {
 		if op.Kind == "IssueStart" {
 			if n := w.nameInKey(op.Key); n >= 0 && w.failing[n] {
+				if w.ocspG[gid] {
+					// the forced renewal of a revoked certificate runs inside the OCSP pass with
+					// retries; the issuer says "do not retry", so one failed attempt ends it
+					return certmagic.ErrNoRetry{Err: c05ErrIssuerDown}
+				}
 				return c05ErrIssuerDown
+			}
+		}
+		if op.Kind == "Load" && w.ocspG[gid] && strings.Contains(op.Key, "certificates/") {
+			// likewise a forced renewal with nothing in storage gives up at once
+			if _, ok := w.be.Get(op.Key); !ok {
+				return certmagic.ErrNoRetry{Err: fs.ErrNotExist}
 			}
 		}
 		return nil
 	}
 	if w.draining || w.actors[gid] {
+		if op.Kind == "Lock" && w.ocspG[gid] {
+			if n := w.nameInKey(op.Key); n >= 0 {
+				w.ocspOrd = append(w.ocspOrd, n)
+			}
+		}
 		err := inject()
 		w.mu.Unlock()
 		return err
@@ -273,7 +298,7 @@ func c05NewWorld(h *c05Hist) *c05World {
 	w := &c05World{k: h.K, od: h.OD, be: doubles.NewMemBackend(), ca: doubles.NewCA("C05 harness CA"),
 		actors: map[int64]bool{}, pending: map[int64]*c05Arrival{}, jobOf: map[int64]*c05Job{},
 		jobs: make([][]*c05Job, h.K), failing: make([]bool, h.K), passOf: map[int64]*c05Pass{}, passes: map[int]*c05Pass{},
-		nowRef: time.Now()}
+		nowRef: time.Now(), idue: h.IDue, ocspG: map[int64]bool{}, hashOf: map[int]string{}}
 	for i := 0; i < h.K; i++ {
 		w.names = append(w.names, fmt.Sprintf("n%d.example", i))
 	}
@@ -538,6 +563,43 @@ func (w *c05World) enabled(e c05Event) bool {
 		return true
 	case "ext", "issuer":
 		return e.N < w.k
+	case "revoke":
+		// updateOCSPStaples skips expired certificates; the model has no notion of expiry
+		if w.last == nil {
+			return false
+		}
+		for _, c := range w.last.Cache {
+			if c.ID == e.ID {
+				return !c.Expired
+			}
+		}
+		return false
+	case "ocsp":
+		// the theorems about OCSP passes are for an issuer whose certificates are not already due;
+		// a forced renewal waits for the name's lock, so none while a job holds it
+		if w.idue || w.last == nil {
+			return false
+		}
+		for _, c := range w.last.Cache {
+			if !c.Man || !c05Has(w.last.Rev, c.ID) {
+				continue
+			}
+			for _, o := range w.jobs[c.Head] {
+				if o.phase == 1 {
+					return false
+				}
+			}
+		}
+		return true
+	}
+	return false
+}
+
+func c05Has(l []int, x int) bool {
+	for _, y := range l {
+		if x == y {
+			return true
+		}
 	}
 	return false
 }
@@ -634,6 +696,31 @@ func (w *c05World) do(e c05Event) error {
 			return fmt.Errorf("Manage(%d) did not return", e.N)
 		}
 		w.lastErr = err != nil
+	case "revoke":
+		if !certmagic.VerifMaintainMarkRevoked(w.cache, w.hashOf[e.ID], 0) {
+			return fmt.Errorf("certificate %d is not in the cache", e.ID)
+		}
+	case "ocsp":
+		fin := make(chan struct{})
+		go func() {
+			gid := c05GID()
+			w.mu.Lock()
+			w.actors[gid] = true
+			w.ocspG[gid] = true
+			w.ocspOrd = nil
+			w.mu.Unlock()
+			certmagic.VerifMaintainUpdateOCSPStaples(w.ctx, w.cache)
+			w.mu.Lock()
+			delete(w.actors, gid)
+			delete(w.ocspG, gid)
+			w.mu.Unlock()
+			close(fin)
+		}()
+		select {
+		case <-fin:
+		case <-time.After(c05Timeout):
+			return fmt.Errorf("the OCSP pass did not return")
+		}
 	default:
 		return fmt.Errorf("unknown event kind %q", e.Kind)
 	}
@@ -677,7 +764,7 @@ func (w *c05World) describe(leaf *x509.Certificate, managed bool) (c05Cert, erro
 }
 
 func (w *c05World) observe() (*c05Obs, error) {
-	o := &c05Obs{Err: w.lastErr}
+	o := &c05Obs{Err: w.lastErr, Rev: []int{}}
 	certs, index := certmagic.VerifMaintainCacheSnapshot(w.cache)
 	idOf := map[string]int{}
 	for _, cc := range certs {
@@ -690,8 +777,17 @@ func (w *c05World) observe() (*c05Obs, error) {
 		}
 		idOf[cc.Hash] = d.ID
 		o.Cache = append(o.Cache, d)
+		if cc.Revoked {
+			o.Rev = append(o.Rev, d.ID)
+		}
 	}
 	sort.Slice(o.Cache, func(i, j int) bool { return o.Cache[i].ID < o.Cache[j].ID })
+	sort.Ints(o.Rev)
+	w.hashOf = map[int]string{}
+	for h, id := range idOf {
+		w.hashOf[id] = h
+	}
+	w.last = o
 	for n := 0; n < w.k; n++ {
 		// storage
 		nm := w.names[n]
@@ -904,9 +1000,25 @@ func c05EncObs(e *emit.Enc, o *c05Obs) {
 		}
 	}
 	e.Bool(o.Err)
+	e.Len(len(o.Rev))
+	for _, x := range o.Rev {
+		e.Int(x)
+	}
 }
 
 func c05EncEvent(e *emit.Enc, ev c05Event) {
+	switch ev.Kind {
+	case "revoke":
+		e.Int(1).Int(ev.ID)
+		return
+	case "ocsp":
+		e.Int(2).Len(len(ev.Ord))
+		for _, n := range ev.Ord {
+			e.Int(n)
+		}
+		return
+	}
+	e.Int(0) // an event of the core model
 	switch ev.Kind {
 	case "scan":
 		e.Int(0).Int(ev.P)
@@ -973,6 +1085,9 @@ func runC05History(h *c05Hist, choose c05Chooser) (res *c05Result, err error) {
 		if err != nil {
 			return nil, fmt.Errorf("observing after event %d %+v: %v", len(res.hist.Events), *ev, err)
 		}
+		if ev.Kind == "ocsp" {
+			ev.Ord = append([]int(nil), w.ocspOrd...)
+		}
 		res.hist.Events = append(res.hist.Events, *ev)
 		res.obs = append(res.obs, o)
 		c05Features(res.feats, *ev, prev, o)
@@ -1037,6 +1152,37 @@ func c05Features(f map[string]bool, ev c05Event, b, a *c05Obs) {
 	}
 	if a.Err {
 		f["error_returned"] = true
+	}
+	if ev.Kind == "revoke" && len(a.Rev) > len(b.Rev) {
+		f["certificate_revoked"] = true
+	}
+	if ev.Kind == "ocsp" {
+		for _, c := range b.Cache {
+			if !c.Man || !c05Has(b.Rev, c.ID) {
+				continue
+			}
+			f["ocsp_pass_over_revoked"] = true
+			gone := true
+			for _, x := range a.Cache {
+				if x.ID == c.ID {
+					gone = false
+				}
+			}
+			switch {
+			case !gone:
+				f["revoked_still_cached"] = true
+			case a.Issued[c.Head] > b.Issued[c.Head]:
+				f["revoked_replaced"] = true
+				if b.Store[c.Head] != nil && !b.Store[c.Head].Due {
+					f["forced_renewal_of_fresh_stored"] = true
+				}
+			default:
+				f["revoked_removed_renewal_failed"] = true
+			}
+		}
+		if len(b.Jobs) > 0 {
+			f["ocsp_pass_with_live_jobs"] = true
+		}
 	}
 	for _, x := range a.Jobs {
 		if x%3 == 1 {
@@ -1154,7 +1300,28 @@ func c05Random(r *rand.Rand, h *c05Hist, n int) c05Chooser {
 		for try := 0; try < 50; try++ {
 			var ev c05Event
 			name := r.Intn(h.K)
-			switch x := r.Intn(100); {
+			x := r.Intn(100)
+			if x >= 86 {
+				// revocation (only with an issuer whose certificates are not already due)
+				if h.IDue || w.last == nil || len(w.last.Cache) == 0 {
+					continue
+				}
+				if x < 94 {
+					c := w.last.Cache[r.Intn(len(w.last.Cache))]
+					ev := c05Event{Kind: "revoke", ID: c.ID}
+					if !w.enabled(ev) {
+						continue
+					}
+					return &ev
+				}
+				ev := c05Event{Kind: "ocsp"}
+				if !w.enabled(ev) {
+					continue
+				}
+				return &ev
+			}
+			x = x * 100 / 86
+			switch {
 			case x < 14:
 				w.mu.Lock()
 				np := len(w.passes)
@@ -1282,6 +1449,8 @@ func c05Ev(kind string, a ...int) c05Event {
 		}
 	case "manage":
 		e.N, e.Async = a[0], a[1] == 1
+	case "revoke":
+		e.ID = a[0]
 	}
 	return e
 }
@@ -1408,6 +1577,49 @@ func c05Scenarios() []c05Scenario {
 		c05Scenario{"manage-beside-unmanaged-async", c05Build([]c05NameInit{{unman: true}, {unman: true, stored: 3}}, false),
 			c05Cat(one(c05Ev("manage", 0, 1)), one(c05Ev("manage", 1, 1)), drain(0), drain(1), pass(0))},
 	)
+	// --- revocation: "keeps being served as long as it has not been revoked"
+	cachedID := func(h *c05Hist, head int) int {
+		for _, id := range h.Cache {
+			if h.Certs[id].Head == head && h.Certs[id].Man {
+				return id
+			}
+		}
+		return -1
+	}
+	for _, age := range []int{1, 2} {
+		for _, stored := range []int{0, 1, 2, 3} {
+			for _, fail := range []int{0, 1} {
+				for _, multi := range []bool{false, true} {
+					base := []c05NameInit{{cached: age, stored: stored, multi: multi}, {cached: 1, stored: 1}, {cached: 1, stored: 1, od: true, unman: true}}
+					mk := func() *c05Hist { return c05Build(base, false) }
+					h0 := mk()
+					id0, id1, id2 := cachedID(h0, 0), cachedID(h0, 1), cachedID(h0, 2)
+					tag := fmt.Sprintf("age%d-stored%d-fail%d", age, stored, fail)
+					rv := func(id int) []c05Event { return one(c05Ev("revoke", id)) }
+					ocsp := one(c05Ev("ocsp"))
+					iss := one(c05Ev("issuer", 0, fail))
+					out = append(out,
+						// an OCSP pass without revocations changes nothing; then the revoked one is replaced / removed,
+						// the others stay; managing the name again brings back what storage holds
+						c05Scenario{"revoked/" + tag, mk(), c05Cat(iss, ocsp, rv(id0), pass(0), ocsp, pass(1), one(c05Ev("issuer", 0, 0)), one(c05Ev("manage", 0, 0)), ocsp, drain(0), pass(2))},
+						c05Scenario{"revoked-between-scan-and-act/" + tag, mk(), c05Cat(iss, one(c05Ev("scan", 0)), rv(id0), ocsp, one(c05Ev("act", 0)), drain(0), ocsp, pass(1))},
+						c05Scenario{"revoked-while-job-queued/" + tag, mk(), c05Cat(iss, pass(0), rv(id0), ocsp, drain(0), ocsp, pass(1))},
+						c05Scenario{"revoked-after-external-renewal/" + tag, mk(), c05Cat(iss, rv(id0), one(c05Ev("ext", 0)), ocsp, pass(0), drain(0), pass(1))},
+						c05Scenario{"revoked-two-names/" + tag, mk(), c05Cat(iss, rv(id0), rv(id1), rv(id1), ocsp, ocsp, pass(0), drain(0))},
+						c05Scenario{"revoked-on-demand-and-unmanaged/" + tag, mk(), c05Cat(iss, rv(id2), rv(id2+1), ocsp, rv(id0), ocsp, pass(0), drain(0))},
+						c05Scenario{"revoked-while-job-holds-lock/" + tag, mk(), c05Cat(iss, pass(0), one(c05Ev("job", 0)), rv(id0), ocsp, drain(0), ocsp, pass(1))},
+					)
+				}
+			}
+		}
+	}
+	// two revoked certificates for the same first name (a managed one and an on-demand... no: two managed
+	// ones can only share a name through multi-SAN; here: names 0 and 1, the second certificate lists both)
+	for _, fail := range []int{0, 1} {
+		h := c05Build([]c05NameInit{{cached: 1, stored: 1}, {cached: 2, stored: 1, multi: true}}, false)
+		out = append(out, c05Scenario{"revoked-overlapping-names", h,
+			c05Cat(one(c05Ev("issuer", 1, fail)), one(c05Ev("revoke", 0)), one(c05Ev("revoke", 1)), one(c05Ev("ocsp")), pass(0), drain(0), drain(1), one(c05Ev("ocsp")))})
+	}
 	return out
 }
 
